@@ -159,3 +159,37 @@ func VerifC11_SelectFailureFunnel() {
 		vsymAssert(len(rt.tcpDown) == 1, "failed-select-reports-exactly-one-TCPDown")
 	}
 }
+
+// VerifC11_T7VsSelectRspVT: the NOT-SELECTED dwell timer against the Select.rsp that ends the
+// active Select transaction, through the real dispatchFrame: only a response that actually selects
+// the session (status 0, committed) stops T7; after any other routed Select.rsp (status 1..255)
+// the timer still expires at T7 and is reported once, so a link that never gets selected is
+// recovered.
+func VerifC11_T7VsSelectRspVT() {
+	vsymExpect("selected")
+	vsymExpect("not-selected")
+	t7 := int64(10 * time.Second)
+	rt := &vrt{state: hsms.NotSelectedState, timers: hsms.TimerConfig{T7: time.Duration(t7)}}
+	tr := newVT(rt, true)
+	g := tr.wg
+	tr.armT7(g)
+	vsymAdvance(t7 / 4)
+	sys := [4]byte{vsymU8(), vsymU8(), vsymU8(), vsymU8()}
+	status := vsymU8()
+	rt.pending = append(rt.pending, sys)
+	sid := vsymU16()
+	keep := tr.dispatchFrame(g, []byte{byte(sid >> 8), byte(sid), 0, status, 0, 2, sys[0], sys[1], sys[2], sys[3]})
+	vsymAssert(keep, "select-rsp-keeps-the-link")
+	vsymAdvance(t7 * 2)
+	if status == 0 {
+		vsymReach("selected")
+		vsymAssert(rt.state == hsms.SelectedState, "status-0-selects")
+		vsymAssert(rt.t7Expired == 0, "selection-cancels-t7")
+	} else {
+		vsymReach("not-selected")
+		vsymAssert(rt.state == hsms.NotSelectedState, "failed-select-does-not-select")
+		vsymAssert(rt.t7Expired == 1, "t7-still-expires-after-a-failed-select")
+	}
+	tr.cancelT7()
+	g.t7.Wait()
+}
